@@ -70,8 +70,11 @@ def validate_exec_traces(ctx, execs, invs, name=None):
            f"  AtomicCallback = {'TRUE' if VARIANT.get('AtomicCallback') else 'FALSE'}",
            f"  FixAncestorWalk = {'TRUE' if VARIANT.get('FixAncestorWalk') else 'FALSE'}",
            f"  ResubmitUnderLock = {'TRUE' if VARIANT.get('ResubmitUnderLock', True) else 'FALSE'}",
+           f"  FixStepGuard = {'TRUE' if VARIANT.get('FixStepGuard', False) else 'FALSE'}",
            "CONSTRAINT Progress", "CONSTRAINT Prune"] + [f"INVARIANT {i}" for i in invs] + ["POSTCONDITION Accepted", "CHECK_DEADLOCK FALSE"]
     bound = {"C09": {"OnDone", "Build", "ExReturn", "BodyStart"}, "C10": {"Ckpt", "BodyEnd", "ParentCkpt"},
+             "C01": {"Ckpt", "BodyStart", "BodyEnd"}, "C04": {"Ckpt", "BodyStart"}, "C12": {"Ckpt", "BodyEnd", "Resubmit"},
+             "C14": {"Ckpt", "BodyEnd"}, "C02": {"Build", "Ckpt"}, "C16": {"Build", "Ckpt"},
              "C07": {"EvSet", "ExReturn", "Resubmit", "Refresh", "BodyStart"}, "C06": {"EvSet", "ExReturn", "BodyEnd", "Refresh"}, "C08": set()}
 
     def classify(trace, scen, reached):
